@@ -169,4 +169,10 @@ FullyTyped(t, ctx) ==
   /\ TypeOf(t, ctx) \notin {"any", REJECT}
   /\ \A i \in 1..Len(Kids(t)) :
         FullyTyped(Kids(t)[i], (IF t.k = "bi" /\ i = 2 THEN TypeOf(t.x, ctx) ELSE ctx))
+(* C03's scope: every operand is statically typed.  A conditional whose branches are typed differently has *)
+(* no single static type itself ("any"), yet all its operands are typed: in scope when it is the root.    *)
+SoundScope(t) ==
+  \/ FullyTyped(t, "")
+  \/ /\ t.k = "cond" /\ TypeOf(t, "") = "any"
+     /\ FullyTyped(t.c, "") /\ FullyTyped(t.a, "") /\ FullyTyped(t.b, "")
 =============================================================================
